@@ -65,9 +65,10 @@ type R struct {
 	Order       int
 	ForcePerm   func(site string, n int) []int // E4: externally imposed order
 
-	StateOps   int   // state-changing operations executed
-	Logical    int64 // hook events in the whole run (logical time)
-	opSteps    int64 // hook events in the current operation
+	StateOps   int    // state-changing operations executed
+	Logical    int64  // hook events in the whole run (logical time)
+	opSteps    int64  // hook events in the current operation
+	budgetAt   string // where the current operation exceeded its budget first
 	opStart    time.Time
 	MaxOpSteps int64
 	inOp       bool
@@ -148,7 +149,16 @@ func (r *R) onStep(site string) {
 	if r.inOp {
 		r.opSteps++
 		if r.opSteps > StepBudget {
-			panic(budgetExceeded{site})
+			// The panic unwinds through the library's deferred closures, which are hooked too:
+			// re-raising in each of them makes the unwinding of a deep recursion quadratic.
+			// Raise once, then again only every 4096 events (in case something recovered and goes on).
+			if over := r.opSteps - StepBudget; over == 1 || over&4095 == 0 {
+				if r.budgetAt == "" {
+					r.budgetAt = site
+				}
+				panic(budgetExceeded{r.budgetAt})
+			}
+			return
 		}
 		if r.opSteps&255 == 0 && time.Since(r.opStart) > WallBudget {
 			panic(budgetExceeded{site + " (wall-clock trigger)"})
@@ -218,6 +228,7 @@ type Outcome struct {
 func (r *R) Call(fn func()) (out Outcome) {
 	r.inOp = true
 	r.opSteps = 0
+	r.budgetAt = ""
 	r.opStart = time.Now()
 	defer func() {
 		r.inOp = false
